@@ -304,3 +304,56 @@ def registered_callable(rm):
                             return call, ("self", st_.targets[0].attr)
                     return None, None
     return None, None
+
+
+def alias_map(scope):
+    """name -> normalised source of the expression it stands for, for names bound exactly once in
+    *scope* by a plain assignment: A = e;  A, B = X  (A = X[0], B = X[1]);  A, B = e0, e1"""
+    import ast as _ast
+    seen = {}
+    count = {}
+    for n in _ast.walk(scope):
+        if isinstance(n, (_ast.Assign, _ast.AnnAssign)):
+            targets = n.targets if isinstance(n, _ast.Assign) else [n.target]
+            if n.value is None or len(targets) != 1:
+                for t in targets:
+                    for x in _ast.walk(t):
+                        if isinstance(x, _ast.Name):
+                            count[x.id] = count.get(x.id, 0) + 2
+                continue
+            t = targets[0]
+            if isinstance(t, _ast.Name):
+                count[t.id] = count.get(t.id, 0) + 1
+                seen[t.id] = norm(n.value)
+            elif isinstance(t, (_ast.Tuple, _ast.List)) and all(isinstance(e, _ast.Name) for e in t.elts):
+                if isinstance(n.value, (_ast.Tuple, _ast.List)) and len(n.value.elts) == len(t.elts):
+                    for e, v in zip(t.elts, n.value.elts):
+                        count[e.id] = count.get(e.id, 0) + 1
+                        seen[e.id] = norm(v)
+                else:
+                    for i, e in enumerate(t.elts):
+                        count[e.id] = count.get(e.id, 0) + 1
+                        seen[e.id] = "{}[{}]".format(norm(n.value), i)
+            else:
+                for x in _ast.walk(t):
+                    if isinstance(x, _ast.Name):
+                        count[x.id] = count.get(x.id, 0) + 2
+        elif isinstance(n, (_ast.AugAssign, _ast.NamedExpr)):
+            t = n.target
+            if isinstance(t, _ast.Name):
+                count[t.id] = count.get(t.id, 0) + 2
+        elif isinstance(n, (_ast.For, _ast.comprehension)):
+            for x in _ast.walk(n.target):
+                if isinstance(x, _ast.Name):
+                    count[x.id] = count.get(x.id, 0) + 2
+    return {k: v for k, v in seen.items() if count.get(k) == 1}
+
+
+def resolve_alias(text, amap, depth=4):
+    """follow whole-expression aliases: 'production' -> 'r[0]'"""
+    for _ in range(depth):
+        if text in amap and amap[text] != text:
+            text = amap[text]
+        else:
+            break
+    return text
